@@ -156,8 +156,8 @@ def create_OpenSSLOptimizations(curve_id: int) -> type[Any]:
             if e == 0 or p == self._infinity:  # type: ignore[attr-defined]
                 return self._infinity  # type: ignore[attr-defined]
 
-            bn_x = OpenSSL.BignumType(p[0])
-            bn_y = OpenSSL.BignumType(p[1])
+            bn_x = OpenSSL.BignumType(p[0] % self._p)  # type: ignore[attr-defined]
+            bn_y = OpenSSL.BignumType(p[1] % self._p)  # type: ignore[attr-defined]
             bn_n = OpenSSL.BignumType(e)
 
             ctx = OpenSSL.BN_CTX_new()
